@@ -91,6 +91,7 @@ func (s *session) pickCompaction() *compaction {
 		}
 	}
 
+	verifAutoPick(s, v, sourceLevel, t0, typ)
 	return newCompaction(s, v, sourceLevel, t0, typ)
 }
 
